@@ -162,8 +162,9 @@ pub async fn apply(op: &Op, db: &GateDb, mgr: &StorageManager<GateDb>, m: &mut S
                     if r.is_err() || !log.is_empty() {
                         violation = Some(("empty_commit".to_string(), format!("commit of an empty log returned {r:?} / wrote {} batches", log.len())));
                     }
-                } else if !has_azks {
-                    // refusal: accepted provided nothing was written and no transaction stays open
+                } else if !has_azks && (r.is_err() || log.is_empty()) {
+                    // a log without an epoch record may be refused: accepted provided nothing was written and
+                    // no transaction stays open (the pending writes are discarded)
                     note = "commit refused (no epoch record in the log)".into();
                     if r.is_ok() || !log.is_empty() {
                         violation = Some(("commit_without_epoch_record".to_string(), format!("commit returned {r:?} / wrote {} batches", log.len())));
